@@ -38,8 +38,9 @@ CONSTANTS Scns,        \* set of scenario records (same shape as the traces' scn
           MaxFaults,   \* at most this many injected faults per behaviour
           UserCancels, \* TRUE: the user may run cancel-jobs once, at any moment
           EagerUser,   \* TRUE: the user runs try-submit-jobs on the login node at any moment (not only when all is quiet)
-          ResubFlags,  \* flag records [failed, missing, successful] with which the user may run resubmit-jobs once on the
+          ResubFlags,  \* flag records [failed, missing, successful] with which the user may run resubmit-jobs on the
                        \* completed submission ({} = never)
+          MaxResub,    \* ... at most this many times (each on the then completed submission)
           Log,         \* TRUE: keep path/elog (cover and simulation configurations; hidden by VIEW)
           Fixed        \* set of findings repaired in the modelled tree, e.g. {"F1"}; the pinned defects stay expressible
 
@@ -65,7 +66,7 @@ VARIABLES
   npid, nuser, ended,
   nfault,           \* injected faults so far
   ncancel,          \* cancel-jobs commands issued by the user (0 or 1)
-  nresub,           \* resubmit-jobs commands issued by the user (0 or 1)
+  nresub,           \* resubmit-jobs commands issued by the user (0 .. MaxResub)
   stuck,            \* node result files whose lock marker was left behind by a runner killed inside its critical section
   m,                \* the monitor
   path, elog        \* history (only when Log): action labels taken, events emitted
@@ -82,7 +83,7 @@ SlotHost(s) == IF s = LOGIN \/ s > 2 * MaxB THEN "login" ELSE IF s <= MaxB THEN 
 Idle == [kind |-> "none", pc |-> "idle", pid |-> 0, b |-> 0,
          lcfg |-> <<>>, wcfg |-> <<>>, ljs |-> <<>>, act |-> {}, todo |-> {}, got |-> <<>>, pending |-> <<>>,
          newly |-> {}, canc |-> <<>>, gi |-> 0, avail |-> <<>>, subm |-> <<>>, blkd |-> {}, lbidx |-> 0,
-         done |-> FALSE, exc |-> "", rc |-> 0, fl |-> [failed |-> TRUE, missing |-> TRUE, successful |-> FALSE],
+         done |-> FALSE, exc |-> "", rc |-> 0, fl |-> [failed |-> TRUE, missing |-> TRUE, successful |-> FALSE], rg |-> FALSE,
          queue |-> <<>>, outst |-> <<>>, nrem |-> <<>>, depth |-> 0]
 
 RowOk(j, b) == <<j, ToString(S.rc[j]), "finished", "0.0", "0.0", ToString(b)>>
@@ -654,6 +655,16 @@ CPromote(s) ==
                                             EvPromote(P(s).pid, "login", TRUE, "", "login", FALSE)>>)
   /\ UNCHANGED <<S, js, marker, bfile, hs, nodeFile, processed, jp, npid, nuser, ended, nfault, ncancel, nresub, stuck>>
 
+\* `for _ in range(60)` runs out: "Failed to get promoted to submitter", exit 1, nothing canceled. The count is abstracted: a
+\* refused cancel-jobs may give up whenever somebody holds the role (a holder slow enough for the remaining attempts is always
+\* possible -- the model has no clock); the replay lets the real process use up its remaining attempts while the others rest.
+\* It never takes the role from a holder.
+CGiveUp(s) ==
+  /\ s = CSLOT /\ P(s).pc = "cpromote" /\ cfg.sub # ""
+  /\ Set(s, Idle)
+  /\ Feed(<<"CGiveUp", s, 0>>, <<EvPromote(P(s).pid, "login", FALSE, cfg.sub, cfg.sub, FALSE), EvExit(P(s).pid, "cancel-jobs", 1, "")>>)
+  /\ UNCHANGED <<S, cfg, js, marker, bfile, hs, nodeFile, processed, jp, npid, nuser, ended, nfault, ncancel, nresub, stuck>>
+
 \* scancel of the next persisted id (in the persisted order): a pending batch leaves the queue, a running one is killed
 \* with everything on its node; a batch that already left the queue makes scancel fail (ignored)
 CScancel(s) ==
@@ -714,7 +725,7 @@ CEnd(s) ==
   /\ Feed(<<"CEnd", s, 0>>, <<EvExit(P(s).pid, "cancel-jobs", P(s).rc, "")>>)
   /\ UNCHANGED <<S, cfg, js, marker, bfile, hs, nodeFile, processed, jp, npid, nuser, ended, nfault, ncancel, nresub, stuck>>
 
-CancelStep(s) == CPromote(s) \/ CScancel(s) \/ CMark(s) \/ CDemote(s) \/ CTrySpawn(s) \/ CEnd(s)
+CancelStep(s) == CPromote(s) \/ CGiveUp(s) \/ CScancel(s) \/ CMark(s) \/ CDemote(s) \/ CTrySpawn(s) \/ CEnd(s)
 
 \* ---------------------------------------------------------------- the user
 QuiescentDef == /\ \A s \in Slots : P(s).kind = "none"
@@ -735,11 +746,15 @@ Downstream(X) == LET Y == X \cup {j \in J : ToSet(S.blk[j]) \cap X # {}} IN IF Y
 FlagCode(f) == (IF f.failed THEN 1 ELSE 0) + (IF f.missing THEN 2 ELSE 0) + (IF f.successful THEN 4 ELSE 0)
 
 UserResubmit ==
-  /\ nresub = 0 /\ QuiescentDef /\ cfg.complete /\ ~cfg.canceled /\ ~ended
-  /\ \E f \in ResubFlags :
-       /\ nresub' = 1 /\ npid' = npid + 1 /\ nuser' = 0        \* the new epoch gets its own recovery rounds
-       /\ Set(LOGIN, [Idle EXCEPT !.kind = "resubmit-jobs", !.pc = "rpromote", !.pid = npid + 1, !.fl = f])
-       /\ Feed(<<"UserResubmit", 0, FlagCode(f)>>, <<[EvProc(npid + 1, "resubmit-jobs", FALSE, -1) EXCEPT !.fl = f]>>)
+  /\ nresub < MaxResub /\ QuiescentDef /\ cfg.complete /\ ~cfg.canceled /\ ~ended
+  \* (`-s FILE`: when the scenario carries replacement parameters for its groups -- S.hasregroup, S.regroup -- the user may
+  \*  pass them; the `regroup` event tells the monitor, RReset makes them the parameters the batching actions read)
+  /\ \E f \in ResubFlags : \E rg \in (IF S.hasregroup THEN BOOLEAN ELSE {FALSE}) :
+       /\ nresub' = nresub + 1 /\ npid' = npid + 1 /\ nuser' = 0        \* the new epoch gets its own recovery rounds
+       /\ Set(LOGIN, [Idle EXCEPT !.kind = "resubmit-jobs", !.pc = "rpromote", !.pid = npid + 1, !.fl = f, !.rg = rg])
+       /\ Feed(<<"UserResubmit", IF rg THEN 1 ELSE 0, FlagCode(f)>>,
+               (IF rg THEN <<[e |-> "regroup", groups |-> S.regroup]>> ELSE <<>>)
+                 \o <<[EvProc(npid + 1, "resubmit-jobs", FALSE, -1) EXCEPT !.fl = f]>>)
   /\ UNCHANGED <<S, cfg, js, marker, bfile, hs, nodeFile, processed, jp, ended, nfault, ncancel, stuck>>
 
 \* Cluster.deserialize(try_promote_to_submitter=True): nobody else is around on a complete, quiet submission
@@ -769,7 +784,9 @@ RReset(s) ==
      IN /\ processed' = pr /\ js' = js1 /\ cfg' = c1
         /\ Set(s, [p EXCEPT !.pc = "poll", !.lcfg = c1, !.wcfg = c1, !.ljs = js1, !.lbidx = js1.bidx, !.act = js1.ids])
         /\ Feed(<<"RReset", s, 0>>, <<EvRows(nodeFile, processed), EvStatus(p.pid, c1, js1, marker, nodeFile, pr)>>)
-  /\ UNCHANGED <<S, marker, bfile, hs, nodeFile, jp, npid, nuser, ended, nfault, ncancel, nresub, stuck>>
+        \* the groups replaced in the command's copy of the cluster configuration are persisted with the reset
+        /\ S' = IF p.rg THEN [S EXCEPT !.groups = S.regroup] ELSE S
+  /\ UNCHANGED <<marker, bfile, hs, nodeFile, jp, npid, nuser, ended, nfault, ncancel, nresub, stuck>>
 
 \* the documented recovery: try-submit-jobs (also what show-status offers) when nothing is active
 UserTry ==
@@ -807,6 +824,9 @@ FairSpec == Spec /\ \A s \in Slots : WF_vars(SubStep(s) \/ NodeStep(s))
                  /\ \A b \in B : WF_vars(StartBatch(b))
                  /\ \A j \in AllJobNames : WF_vars(JobExit(j))
                  /\ WF_vars(UserTry)
+\* ... and the cancel-jobs process takes its steps (its 60 one-second attempts at the role are not bounded here: the other
+\* processes' work is finite, so weak fairness gives it the role eventually)
+FairSpecCancel == FairSpec /\ WF_vars(CancelStep(CSLOT))
 
 \* history that does not carry behaviour is hidden from the state space
 View == <<implvars, [m EXCEPT !.pos = 0, !.vpos = <<>>, !.cnt = <<>>, !.kind = <<>>, !.rounds = {@[p] : p \in DOMAIN @},
@@ -843,5 +863,12 @@ DumpBehaviour == (Log /\ ended) => PrintT(<<"BEHAVIOUR", ToJson([scn |-> S.id, p
 
 \* C05 liveness: under fairness (and the user running the documented recovery) the submission completes
 EventuallyComplete == <>(cfg.complete)
+\* C14 liveness: a cancellation ends the submission -- complete, nobody left running, nothing left in the queue; and if it
+\* found the submission incomplete, the submission is marked canceled
+CancelEnds == (ncancel = 1) ~> (cfg.complete /\ QuiescentDef /\ \A j \in J : jp[j] # "running")
+CancelMarks == (P(CSLOT).pc = "cscancel") ~> (cfg.canceled /\ cfg.complete)
+\* C13 liveness: the resubmitted part completes again (with --missing in the flags; without it the rerun jobs may wait for
+\* ever for a blocker nobody reruns -- K2)
+ResubmitEnds == (nresub >= 1 /\ ~cfg.complete) ~> (cfg.complete /\ QuiescentDef)
 NoLaunchAfterComplete == [][cfg.complete => jp' = jp \/ \A j \in J : jp'[j] # "running" \/ jp[j] = "running"]_vars
 =============================================================================
